@@ -9,6 +9,8 @@ package c04
 import (
 	"context"
 	"fmt"
+	"os"
+	"strconv"
 	"sync/atomic"
 	"testing"
 	"time"
@@ -170,6 +172,13 @@ func heartbeats(t *testing.T, r *vrep.Report, backend string) {
 		}
 		_ = txn.Rollback()
 		u.Drain()
+		// a heart-beat whose loop iteration had passed its last "am I stopped" test when Rollback returned may still be
+		// on its way to the wire for an instant: let that instant pass before drawing the line (tolerance only)
+		settle := 50
+		if v, err := strconv.Atoi(os.Getenv("VERIF_C04_HB_SETTLE_MS")); err == nil {
+			settle = v
+		}
+		time.Sleep(time.Duration(settle) * time.Millisecond)
 		q := u.Log.Now()
 		time.Sleep(400 * time.Millisecond)
 		trace.CheckUniverse(r, u, nil, "heartbeats "+backend, trace.Options{QuiescedSeq: q})
@@ -191,6 +200,171 @@ func heartbeats(t *testing.T, r *vrep.Report, backend string) {
 		}
 		if attempt == 1 {
 			r.Violate("no-heartbeat-while-open", fmt.Sprintf("heartbeats %s: an open pessimistic transaction sent no heart-beat during %v with a heart-beat period of 150 ms", backend, wait), nil)
+		}
+	}
+}
+
+// heartbeatSlowTSO: the heart-beat loop of an open pessimistic transaction fetches a timestamp before every
+// heart-beat; here that request is slow (PD latency) and the transaction is rolled back while it is outstanding.  No
+// heart-beat may reach the wire after Rollback has returned and the client has drained.  Decided by sequence numbers:
+// the timestamp request is released only after the line has been drawn.
+func heartbeatSlowTSO(t *testing.T, r *vrep.Report, backend string) {
+	old := atomic.LoadUint64(&transaction.ManagedLockTTL)
+	atomic.StoreUint64(&transaction.ManagedLockTTL, 300) // ticker = 150 ms
+	defer atomic.StoreUint64(&transaction.ManagedLockTTL, old)
+	label := "heartbeat-slow-tso " + backend
+	u, err := uni.New(backend, 1)
+	if err != nil {
+		r.Inconc("universe: %v", err)
+		return
+	}
+	defer u.Close()
+	c, _ := u.NewClient()
+	txn, _ := c.Begin()
+	txn.SetPessimistic(true)
+	fu, _ := c.Store.CurrentTimestamp("global")
+	lc := kv.NewLockCtx(fu, 1000, time.Now())
+	if err := txn.LockKeys(context.Background(), lc, []byte("k1")); err != nil {
+		r.Inconc("%s: lock: %v", label, err)
+		return
+	}
+	gate := make(chan struct{})
+	entered := make(chan struct{}, 16)
+	c.PD.SetTSOHook(func() {
+		select {
+		case entered <- struct{}{}:
+		default:
+		}
+		<-gate
+	})
+	// wait until a timestamp request is held (the heart-beat loop's, or the store's own clock refresh - either way
+	// the loop cannot get a timestamp before the gate opens); generous wall-clock bound, inconclusive when it fires
+	select {
+	case <-entered:
+	case <-time.After(5 * time.Second):
+		close(gate)
+		r.Inconc("%s: no timestamp request within 5 s of an open transaction with a 150 ms heart-beat period", label)
+		_ = txn.Rollback()
+		return
+	}
+	time.Sleep(400 * time.Millisecond) // at least two more ticks have fired by now; the loop is parked in its timestamp request
+	rbErr := txn.Rollback()
+	u.Drain()
+	q := u.Log.Now()
+	c.PD.SetTSOHook(nil)
+	close(gate)
+	time.Sleep(300 * time.Millisecond) // let the released iteration do what it does
+	u.Drain()
+	late := 0
+	for _, cl := range u.Log.Calls() {
+		if cl.Cmd == tikvrpc.CmdTxnHeartBeat && cl.StartTS == txn.StartTS() && cl.Seq > q {
+			late++
+		}
+	}
+	r.Eval(1)
+	r.Count("heartbeat_slow_tso_scenarios", 1)
+	r.Distinct(fmt.Sprintf("hbslow|%s|late=%d|rb=%v", backend, late, rbErr == nil))
+	if late > 0 {
+		r.Violate("heartbeat-after-end:slow-tso", fmt.Sprintf("%s: %d heart-beat(s) of the transaction reached the wire after Rollback had returned and the client had drained (the loop's timestamp request was outstanding when the transaction ended)", label, late), nil)
+	}
+}
+
+// fairLockingHeartbeats: a fair-locking (aggressive locking) statement is retried and the retry selects another primary;
+// the first attempt's key is released when the statement is done.  While the transaction stays open its heart-beats
+// must (come to) name the primary it holds now, and they must keep coming.
+func fairLockingHeartbeats(t *testing.T, r *vrep.Report, backend string, variant int) {
+	old := atomic.LoadUint64(&transaction.ManagedLockTTL)
+	atomic.StoreUint64(&transaction.ManagedLockTTL, 300) // ticker = 150 ms
+	defer atomic.StoreUint64(&transaction.ManagedLockTTL, old)
+	label := fmt.Sprintf("fair-locking-heartbeats %s variant=%d", backend, variant)
+	for attempt, wait := range []time.Duration{900 * time.Millisecond, 4 * time.Second} {
+		u, err := uni.New(backend, 1)
+		if err != nil {
+			r.Inconc("universe: %v", err)
+			return
+		}
+		c, _ := u.NewClient()
+		txn, _ := c.Begin()
+		txn.SetPessimistic(true)
+		ctx := context.Background()
+		lock := func(keys ...string) error {
+			fu, _ := c.Store.CurrentTimestamp("global")
+			lc := kv.NewLockCtx(fu, 1000, time.Now())
+			var ks [][]byte
+			for _, k := range keys {
+				ks = append(ks, []byte(k))
+			}
+			return txn.LockKeys(ctx, lc, ks...)
+		}
+		fail := func(what string, err error) {
+			r.Inconc("%s: %s: %v", label, what, err)
+			_ = txn.Rollback()
+			u.Close()
+		}
+		txn.StartAggressiveLocking()
+		if err := lock("k1"); err != nil {
+			fail("first attempt", err)
+			return
+		}
+		switch variant {
+		case 1:
+			// let the first attempt's heart-beat loop run before the retry
+			time.Sleep(350 * time.Millisecond)
+		}
+		txn.RetryAggressiveLocking(ctx)
+		// one key per call: a multi-key call leaves fair locking mode
+		if err := lock("k2"); err != nil {
+			fail("second attempt", err)
+			return
+		}
+		if variant == 1 {
+			if err := lock("k3"); err != nil {
+				fail("second attempt, second key", err)
+				return
+			}
+		}
+		if txn.IsInAggressiveLockingMode() {
+			txn.DoneAggressiveLocking(ctx)
+		}
+		u.Drain()
+		doneSeq := u.Log.Now()
+		var newPrimary []byte
+		for _, cl := range u.Log.Calls() {
+			if pl, ok := cl.Req.(*kvrpcpb.PessimisticLockRequest); ok && cl.StartTS == txn.StartTS() {
+				newPrimary = pl.PrimaryLock
+			}
+		}
+		time.Sleep(wait) // wall clock: only to let the ticker fire; the verdict is on what was sent
+		named, other := 0, 0
+		var otherKey []byte
+		for _, cl := range u.Log.Calls() {
+			if hb, ok := cl.Req.(*kvrpcpb.TxnHeartBeatRequest); ok && cl.StartTS == txn.StartTS() && cl.Seq > doneSeq {
+				if string(hb.PrimaryLock) == string(newPrimary) {
+					named++
+				} else {
+					other++
+					otherKey = hb.PrimaryLock
+				}
+			}
+		}
+		_ = txn.Rollback()
+		u.Drain()
+		q := u.Log.Now()
+		trace.CheckUniverse(r, u, nil, label, trace.Options{QuiescedSeq: q})
+		u.Close()
+		r.Eval(1)
+		r.Count("fair_locking_heartbeat_scenarios", 1)
+		r.Count("heartbeats_for_reselected_primary", named)
+		if other > 0 {
+			r.Violate("heartbeat-names-released-primary", fmt.Sprintf("%s: after the retried statement was done (primary %q, the first attempt's key released) %d heart-beat(s) still name %q", label, newPrimary, other, otherKey), nil)
+			return
+		}
+		if named > 0 {
+			r.Distinct(fmt.Sprintf("flhb|%s|%d|%d", backend, variant, attempt))
+			return
+		}
+		if attempt == 1 {
+			r.Violate("no-heartbeat-for-reselected-primary", fmt.Sprintf("%s: the open transaction sent no heart-beat for its primary %q during %v (period 150 ms) after a fair-locking retry had re-selected the primary", label, newPrimary, wait), nil)
 		}
 	}
 }
@@ -266,8 +440,16 @@ func TestVerifC04Dedicated(t *testing.T) {
 	failpoint.Disable("tikvclient/fastBackoffBySkipSleep")
 	heartbeats(t, r, uni.Mock)
 	heartbeats(t, r, uni.Uni)
+	for _, be := range []string{uni.Mock, uni.Uni} {
+		for variant := 0; variant < 2; variant++ {
+			fairLockingHeartbeats(t, r, be, variant)
+		}
+		heartbeatSlowTSO(t, r, be)
+	}
 	r.Floor("live_lock_scenarios", 4)
 	r.Floor("heartbeats_seen", 1)
 	r.Floor("rule5_evaluated", 1)
 	r.Floor("batch_limit_scenarios", 10)
+	r.Floor("fair_locking_heartbeat_scenarios", 4)
+	r.Floor("heartbeat_slow_tso_scenarios", 2)
 }
